@@ -679,3 +679,35 @@ Proof.
   split; [|split; [vm_compute; reflexivity|eexists; split; vm_compute; reflexivity]].
   vm_compute. intros H. repeat (destruct H as [H|H]; [discriminate|]). exact H.
 Qed.
+
+(** 24. Views and triggers (round 5, goal 3; Sqlite/ViewModel.v: a view / trigger is the set of table names its text
+    mentions, a trigger also the table it is ON; ALTER TABLE RENAME re-parses them all and is refused when one
+    mentions a missing table; DROP TABLE drops the triggers ON it): a table whose name a view or the body of a trigger
+    on *another* table mentions can never be rebuilt -- for every definition, change list and database (the name
+    used once), the copy path never runs to its end: the RENAME finds the view dangling.  So such a run is always a
+    proper prefix of the plan: `--tx-mode file` rolls back (C05_schema_apply), `--tx-mode none` leaves the state of
+    C05_no_prefix_loses_rows (the rows are in new_<t>; stage rowid counts partial-state-rows-under-temp-name).  A
+    trigger ON the rebuilt table does not block it (it is dropped with the table and silently gone afterwards). *)
+From Atlas Require Sqlite.ViewModel Sqlite.ViewProofs.
+Module VM := Atlas.Sqlite.ViewModel.
+Module VP := Atlas.Sqlite.ViewProofs.
+Theorem C05_view_blocks_rebuild :
+  forall (from : table) (tox : PM.xtable) (cs : list DM.change) (r : list PM.pchange) (sk : bool)
+         (d : EM.db) (ds : list VM.dep) (dp : VM.dep),
+    PM.alterable (PM.x_t tox) cs = false ->
+    PM.modifyTable from tox cs = Some (r, sk) ->
+    EM.db_fk d = false ->
+    VP.cnt (PM.x_name tox) (EM.db_tables d) <= 1 ->
+    In dp ds -> In (PM.x_name tox) (VM.dep_reads dp) -> VM.dep_on dp <> Some (PM.x_name tox) ->
+    forall res, VM.exec_v_all (d, ds) (map PM.pc_cmd r) <> VM.VOk res.
+Proof. exact VP.view_blocks_rebuild. Qed.
+Print Assumptions C05_view_blocks_rebuild.
+
+Example C05_view_blocks_rebuild_nonvacuous :
+  exists r, RW.w_seg = Some (r, true) /\
+    (let '(dv, k, e) := VM.exec_v_count (RW.w_db, [VP.w_dep]) (map PM.pc_cmd r) 0 in
+     k = 3 /\ e = Some VM.VDangling /\ SM.rows_of RW.nT (fst dv) = None /\
+     SM.rows_of (PM.NEW_ ++ RW.nT) (fst dv) =
+       Some [(1%Z, [(RW.nId, EM.VInt 1); (RW.nV, RW.vt 97)]); (2%Z, [(RW.nId, EM.VInt 2); (RW.nV, RW.vt 113)])]) /\
+    VP.cnt RW.nT (EM.db_tables RW.w_db) <= 1.
+Proof. exact VP.w_view_run. Qed.
